@@ -271,6 +271,15 @@ def dict_entries(node, what='dict'):
         raise AnalysisError('%s has a non-constant key %s' % (what, norm(k, 40)))
       out.append((k.value, v))
     return out
+  if isinstance(node, (ast.Tuple, ast.List)) and all(
+      isinstance(e, (ast.Tuple, ast.List)) and len(e.elts) == 2 for e in node.elts):
+    # a sequence of (key, value) pairs, as accepted by dict(...)
+    for e in node.elts:
+      k = resolve(e.elts[0])
+      if not isinstance(k, ast.Constant):
+        raise AnalysisError('%s has a non-constant key %s' % (what, norm(k, 40)))
+      out.append((k.value, e.elts[1]))
+    return out
   if isinstance(node, ast.Call) and call_tail(node) == 'dict' and isinstance(node.func, ast.Name):
     for a in node.args:
       out += dict_entries(a, what)
@@ -280,6 +289,18 @@ def dict_entries(node, what='dict'):
       else:
         out.append((k.arg, k.value))
     return out
+  if isinstance(node, ast.Call) and isinstance(node.func, ast.Attribute) and \
+      isinstance(node.func.value, ast.Call) and dotted(node.func.value.func) == 'super':
+    # super().Method(): the table the base class returns
+    sup = node.func.value.func
+    fi = getattr(sup, '_fi', None)
+    mod = getattr(sup, '_mod', None)
+    if fi is not None and mod is not None and fi.cls in mod.classes:
+      for b in mod.classes[fi.cls].bases:
+        base_m = mod.repo.lookup_method(mod, b, node.func.attr) if b in mod.classes else None
+        if base_m is not None:
+          return list(returned_dict_of_method(base_m).items())
+    raise AnalysisError('%s: base class method of %s not found' % (what, norm(node, 40)))
   if isinstance(node, ast.Call) and call_tail(node) in ('copy', 'deepcopy') and node.args:
     return dict_entries(node.args[0], what)
   if isinstance(node, ast.Call) and call_tail(node) == 'copy' and isinstance(node.func, ast.Attribute) \
@@ -331,6 +352,12 @@ def const_value(node):
     return list(v)
   if isinstance(node, ast.JoinedStr) and all(isinstance(v, ast.Constant) for v in node.values):
     return ''.join(v.value for v in node.values)
+  if isinstance(node, ast.Call) and call_tail(node) == 'join' and isinstance(node.func, ast.Attribute) \
+      and len(node.args) == 1 and not node.keywords:
+    sep = const_value(node.func.value)
+    parts = const_value(node.args[0])
+    if isinstance(sep, str) and isinstance(parts, list) and all(isinstance(x, str) for x in parts):
+      return sep.join(parts)
   raise AnalysisError('not a constant expression: %s' % norm(node, 60))
 
 
@@ -339,7 +366,25 @@ def returned_dict_of_method(fi):
   rets = [x for x in walk_local(fi.node) if isinstance(x, ast.Return)]
   if len(rets) != 1 or rets[0].value is None:
     raise AnalysisError('%s does not return a single dict literal' % fi.fq)
-  return dict_literal(rets[0].value, fi.fq)
+  out = dict_literal(rets[0].value, fi.fq)
+  if isinstance(rets[0].value, ast.Name):
+    # `t = <table>; t[k] = v; ...; return t`: later stores extend the table
+    n = rets[0].value.id
+    for x in walk_local(fi.node):
+      if isinstance(x, ast.Assign) and len(x.targets) == 1 and \
+          isinstance(x.targets[0], ast.Subscript) and dotted(x.targets[0].value) == n:
+        k = resolve(x.targets[0].slice)
+        if not isinstance(k, ast.Constant):
+          raise AnalysisError('%s stores under a non-constant key' % fi.fq)
+        out[k.value] = x.value
+      elif isinstance(x, ast.Call) and call_tail(x) == 'update' and receiver_name(x) == n and x.args:
+        out.update(dict_literal(x.args[0], fi.fq))
+  return out
+
+
+def receiver_name(call):
+  f = call.func
+  return f.value.id if isinstance(f, ast.Attribute) and isinstance(f.value, ast.Name) else None
 
 
 def returned_const(fi):
